@@ -12,8 +12,8 @@ TECH = "contracts on the real functions + weakest-precondition style VC generati
 claims = {
  "C01": ("mechanism obligations of the commit protocol proved per function: ghost I/O protocol of the writer front end (data/meta pages -> sync -> exactly one header write to the inactive slot -> sync; no header write on error exits; header = active header with root, txid+1, allocator/WAL fields and a checksum finalised over the final values; tryCommitChangesToFile/syncNewMeta/prepareMetaBuffer); shadow-paging targets of Page.doFlush (a committed page is never written in place: first overwrite goes to a freshly allocated overwrite page, a redirected page goes back to its own unreferenced id and its overwrite page is freed deferred); publication only to the written slot; writer back end: barrier (nextCommand hands a sync out only together with every write scheduled before it, FIFO batches, verified under the monitor rule), sticky error (no I/O while in error state, cleared only by a reset sync, recorded on every message's sync handle); truncate lower bound; header validation; recovery picks the valid header with the newer txid in wrap-around order; deferred free of committed pages",
          'Not decided: the crash-point x lost-write quantifier itself (no mechanised composition lemma), flushPages (the loop over the page cache) and the serialisation callbacks (fileCommitSerialize abstract: assumed to schedule data-area pages only), allocWALID (abstract: returns 0 or a page >= 2 different from the original). FNV collision on torn headers is assumed away; file contents are an uninterpreted function of the offset (slotAt); Schedule/Sync are monitor code whose contract defines the ghost protocol. Known finding F6 is recorded (separate obligation, not counted).'),
- "C05": ('position codec proved inverse for every page size 2^10..2^31 and every valid position, offset 0 <=> nil position, offsets of valid positions >= 2 pages; Offset/SplitOffset of File and of the standalone delegate against the Delegate interface contract; reader stepping: Reader.readInto delivers exactly min(rest of event, buffer) bytes, a partial read stays inside the event and never advances the page, a complete read moves to the next event id; Reader.Read returns that count; id order helpers',
-         'End-to-end FIFO over the linked page chain is not decided: the cursor operations (txCursor.Read/Skip/AdvancePage/ReadEventHeader) and the write buffer (buffer.Append/ReserveHdr/CommitEvent) are abstract, so header-fit and spill stepping agreement between writer and reader are assumed, not proved. The caller-side type-safety precondition apart(r, b) is stated explicitly.'),
+ "C05": ('position codec proved inverse for every page size 2^10..2^31 and every valid position, offset 0 <=> nil position, offsets of valid positions >= 2 pages; Offset/SplitOffset of File and of the standalone delegate against the Delegate interface contract; writer side: header-fit rule (buffer.ReserveHdr: a header never straddles a page; it stays in the current page iff it fits into the rest of it, else it goes to the start of the payload of a new page), accounting and invariant of the write buffer (Append: avail decreases by exactly the bytes appended, unbounded loop; CommitEvent: first/last event ids and first offset of the page holding the header, frame), event framing (Writer.Next stores uint32(event bytes) in the reserved header before committing the event, event id + 1); reader side: Reader.readInto delivers exactly min(rest of event, buffer) bytes, a partial read stays inside the event and never advances the page, a complete read moves to the next event id; Reader.Read returns that count; Reader re-initialisation from the persisted header; id order helpers',
+         'End-to-end FIFO over the linked page chain is not decided: the cursor operations of the reader (txCursor.Read/Skip/AdvancePage/ReadEventHeader) and buffer.advancePage/Pages/Reset are abstract, so that the stepping of the reader agrees with the layout of the writer is assumed, not proved; after a flush the buffer invariant is a rely clause. The caller-side type-safety precondition apart(r, b) is stated explicitly.'),
  "C08": ("error-path contracts: every failing vfs call in mmap/munmap/mmapUpdate/truncate/readMeta yields a non-nil error, no panic, and the old mapping or a fresh valid one is installed (F4, F10 fixed); writer back end: after a failing WriteAt/Sync no further I/O is issued until a reset sync was answered, and that sync clears the error (writeAt, execSync, Run); commit error path releases the commit locks and publishes nothing (F6 recorded)",
          "Fault sequences/bursts over histories are the (unmechanised) induction over these contracts. vfs.File behaviour is an interface contract (any error at any time); a failing MUnmap or re-mmap after unmap cannot be recovered and is exempted in the contract."),
  "C09": ('lock balance via ghost tokens on the lock: beginTx acquires exactly one of shared/reserved, Tx.close / Rollback / Close / Commit release exactly it on every exit and never twice, withInitTx and initTxMaxSize leave all four lock levels and the pending flag as found for every behaviour of the callback, tryCommitChanges releases pending and exclusive on every exit, File.Close takes and releases all levels; pendingLock.Lock/Unlock verified: the flag is set/cleared and Unlock wakes every blocked reader (Broadcast)',
